@@ -8,6 +8,11 @@ ids = [p["id"] for p in props]
 HOOK_COMMITS = ["332865e1b", "bf49db00e", "0b99e4fc0", "68bfb6d5a"]
 
 CHECKS = {
+ "C15": dict(
+   level="exploration", design="§4 C15",
+   technique="runtime monitoring: outcome-class monitor at the client boundary (rows|error vs panic, process death, deadlock, divergence) with journal attribution of process deaths to one statement, plus a session-state probe (catalog listing, table digest, settings, SELECT 1) after every statement compared with the probe before a failed statement",
+   text="Five streams per run: ~3 600 token-level mutations of valid statements (the statement texts of /repo/slt/standard, C01-generator queries, DDL/DML/SET), 600 random strings over SQL fragments/control/multi-byte characters, ~90 listed ill-typed / unsupported / failing-at-run-time statements (planner thread and worker), 23 structure-stress kinds x depths 10..10^4 (one process each), and every function/operator form x argument type tuples over a table of extreme values (~10 000 expressions). Sessions of 60 statements on the deterministic executor and on the production thread pool (every sixth session).",
+   note="Allocation failures below 2^40 bytes under the harness' address-space cap are resource exhaustion and counted as inconclusive. Stack overflows for deep nesting are recorded as known findings per nesting kind; numeric overflow panics share the C12 signatures. Repaired through this check: CREATE TABLE AS leaving a table behind after a failed statement; left/right/split_part negating i64::MIN."),
  "C18": dict(
    level="exploration", design="§4 C18",
    technique="runtime monitoring: four-way consistency monitor over executions — DESCRIBE rows, announced output schema, DataType of every produced Array and variant/precision/scale/unit of every produced value (the last two compared inside the driver at the client boundary) — plus re-binding of the same expression in other syntactic places and fresh sessions",
